@@ -94,7 +94,7 @@ Definition item_holds (univ : list Z) (m : mon) (it : item) : bool * mon :=
       (* the fast path answers with what the cache holds; coherent3 relates that to the store *)
       (match j_op j with OGet k => ov_eqb (at_key univ ca k) (Some v) | _ => false end
        && coherent3 univ (inflight_key (m_queued m') (m_done m')) ca st (m_committed m'), m')
-  | GCall _, ARefused _ | GCall _, APanic | GStop, AStopped =>
+  | GCall _, ARefused _ | GCall _, APanic | GStop, AStopped | GAbandon _, ARefused _ =>
       let m' := mkMon (m_queued m) (m_done m) (m_started m) (m_store_ids m) (m_committed m) st in
       (coherent3 univ (inflight_key (m_queued m') (m_done m')) ca st (m_committed m'), m')
   | GStep _, AStep id e fin =>
@@ -116,7 +116,8 @@ Definition item_holds (univ : list Z) (m : mon) (it : item) : bool * mon :=
               | _ => true end
            && match j_op j, e with                                            (* add finding its key cached: duplicate at once *)
               | OAdd _ _, EvPeek _ (Some _) =>
-                  if mem id (m_started m) then true else match fin with Some (RErr EDupKey) => true | _ => false end
+                  if mem id (m_started m) then true
+                  else match fin with Some (RErr EDupKey) | Some (RErr ECtx) => true | _ => false end   (* ECtx: its caller had left *)
               | _, _ => true end, m')
       end
   | GCaller _, AStep _ _ _ =>
@@ -259,7 +260,7 @@ Lemma wstep_wjobs s s' a : wstep s = Some (s', a) ->
     ((done_res p' = None /\ a = AStep (j_id (r_job r)) e None /\ wjobs s' = wjobs s /\
         k_cur s' = Some (mkRun (r_job r) p' fs' (r_sv0 r) (if is_store_ev e then true else r_touched r) true) /\ k_queue s' = k_queue s
         /\ k_committed s' = k_committed s)
-     \/ (exists x, p' = Done x /\ a = AStep (j_id (r_job r)) e (Some x) /\ wjobs s' = k_queue s /\
+     \/ (exists x, p' = Done x /\ a = AStep (j_id (r_job r)) e (Some (if k_gone s then RErr ECtx else x)) /\ wjobs s' = k_queue s /\
         k_cur s' = fst (next_job st' (k_queue s)) /\ k_queue s' = snd (next_job st' (k_queue s))
         /\ k_committed s' = upd (k_committed s) (rkey r) (smap (wsr st') (rkey r)))).
 Proof.
@@ -283,7 +284,7 @@ Lemma uinv_gstep c deep g seen l g' a : minv g -> uinv g seen -> gstep c deep g 
   (match l, a with GCall j, AQueued => ~ In (j_id j) seen | _, _ => True end) ->
   uinv g' (match l, a with GCall j, AQueued => j_id j :: seen | _, _ => seen end).
 Proof.
-  intros Hm [Hs Hu] Hg Hfresh. destruct l as [j|w0| |cid]; cbn [gstep] in Hg; [| | |discriminate].
+  intros Hm [Hs Hu] Hg Hfresh. destruct l as [j|w0| |cid|wa]; [| | |cbn [gstep] in Hg; discriminate|]; [cbn [gstep] in Hg | cbn [gstep] in Hg | cbn [gstep] in Hg |].
   - set (wj := loc_of c (key_of (j_op j))) in *. destruct (wj <? 0).
     { inversion Hg; subst. split; assumption. }
     destruct (wcall deep (g wj) j) as [s' a'] eqn:Ew. inversion Hg; subst g' a'; clear Hg.
@@ -330,11 +331,15 @@ Proof.
         destruct (Hu _ _ _ _ _ _ A1 A2 Hid) as [-> Hi]. split; [reflexivity|].
         destruct (Z.eq_dec w2 w0) as [E|E]; [rewrite (B1 E), (B2 E) in Hi; lia | rewrite (C1 E), (C2 E) in Hi; exact Hi].
   - inversion Hg; subst. split; [intros w x; apply (Hs w) | intros w1 w2 i1 i2 j1 j2; apply Hu].
+  - destruct (gstep_abandon _ _ _ _ _ _ Hg) as (s' & Ha & -> & ->). destruct (wabandon_spec _ _ Ha) as (_ & E2 & E3 & _).
+    assert (Hsame : forall w, wjobs (updm g wa s' w) = wjobs (g w)).
+    { intros w. destruct (Z.eq_dec w wa) as [->|Hne]; [rewrite updm_same; unfold wjobs; rewrite E2, E3; reflexivity | rewrite updm_other by exact Hne; reflexivity]. }
+    split; [intros w x; rewrite Hsame; apply Hs | intros w1 w2 i1 i2 j1 j2; rewrite !Hsame; apply Hu].
 Qed.
 
 Lemma sinv_gstep c deep g l g' a : sinv g -> gstep c deep g l = Some (g', a) -> sinv g'.
 Proof.
-  intros Hs Hg. destruct l as [j|w0| |cid]; cbn [gstep] in Hg; [| | |discriminate].
+  intros Hs Hg. destruct l as [j|w0| |cid|wa]; [| | |cbn [gstep] in Hg; discriminate|]; [cbn [gstep] in Hg | cbn [gstep] in Hg | cbn [gstep] in Hg |].
   - set (wj := loc_of c (key_of (j_op j))) in *. destruct (wj <? 0); [inversion Hg; subst; exact Hs|].
     destruct (wcall deep (g wj) j) as [s' a'] eqn:Ew. inversion Hg; subst g' a'; clear Hg.
     intros w r Hc Hst. destruct (Z.eq_dec w wj) as [->|Hne]; [|rewrite updm_other in Hc by exact Hne; eapply Hs; eauto].
@@ -349,6 +354,8 @@ Proof.
     + inversion Hc; subst. discriminate.
     + unfold next_job in Hc. destruct (k_queue (g w0)); inversion Hc; subst. reflexivity.
   - inversion Hg; subst. intros w r Hc. apply (Hs w r Hc).
+  - destruct (gstep_abandon _ _ _ _ _ _ Hg) as (s' & Ha & -> & ->). destruct (wabandon_spec _ _ Ha) as (_ & _ & E3 & _).
+    intros w r Hc. destruct (Z.eq_dec w wa) as [->|Hne]; [rewrite updm_same, E3 in Hc | rewrite updm_other in Hc by exact Hne]; apply (Hs _ r Hc).
 Qed.
 
 (* ---- small facts about the labels ---- *)
@@ -633,18 +640,19 @@ Proof.
     eexists. split.
     { apply mem_false in Hjd. fold id in Hjd. rewrite Hjd. cbn [negb andb]. rewrite Hk. fold k. rewrite Z.eqb_refl. cbn [andb].
       rewrite Hprev. fold k. rewrite (pre_good_ok _ _ Hpre). cbn [andb m_queued]. rewrite Hb. cbn [andb].
-      assert (Hfin : match x with
+      set (x' := if k_gone (g w0) then RErr ECtx else x).
+      assert (Hfin : match x' with
                      | RNil => match at_key univ (map (mcache_at c (updm g w0 s')) univ) k with Some _ => false | None => true end
                      | RErr EDupKey => negb (existsb (fun p => snd p =? id) ids)
                      | _ => true end = true).
-      { destruct x as [v| |er| |]; try reflexivity.
+      { unfold x'. destruct (k_gone (g w0)); [reflexivity|]. destruct x as [v| |er| |]; try reflexivity.
         - rewrite at_key_map by exact Hku. rewrite Hcache_k. destruct (Hnil eq_refl) as [-> _]. reflexivity.
         - destruct er; try reflexivity. specialize (Hdup eq_refl). unfold touch in Hdup.
           destruct (is_store_ev e) eqn:Ese; [discriminate|]. unfold ids. try rewrite Ese. lazy iota.
           destruct (R8 w0 r Hc) as [_ Htt]. apply negb_true_iff. apply existsb_snd_false. apply Htt. exact Hdup. }
       rewrite Hfin. cbn [andb].
       assert (Hadd : match j_op jb, e with
-                     | OAdd _ _, EvPeek _ (Some _) => if mem id (m_started m) then true else match Some x with Some (RErr EDupKey) => true | _ => false end
+                     | OAdd _ _, EvPeek _ (Some _) => if mem id (m_started m) then true else match Some x' with Some (RErr EDupKey) | Some (RErr ECtx) => true | _ => false end
                      | _, _ => true end = true).
       { destruct (j_op jb) as [k1|k1 d1|k1 d1|k1|k1 d1|k1 d1|k1 d1] eqn:Eo; try reflexivity.
         destruct e as [| k2 [v2|] | | | | | | |]; try reflexivity.
@@ -653,7 +661,7 @@ Proof.
         assert (Hns : r_started r = false) by (destruct (r_started r); [exfalso; apply Est; apply Hstd; reflexivity | reflexivity]).
         pose proof (Hsi w0 r Hc Hns) as Hp. fold jb in Hp. rewrite Eo in Hp. rewrite Hp in Hms. cbn [handler mstep] in Hms.
         inversion Hms as [[Hp' Hst' Hfs' Hke Hev]]. first [rewrite Hke in Hp' | rewrite <- Hke in Hev]. rewrite Hev in Hp'.
-        inversion Hp'. reflexivity. }
+        inversion Hp' as [Hx]. unfold x'. rewrite <- Hx. destruct (k_gone (g w0)); reflexivity. }
       rewrite Hadd. reflexivity. }
     constructor; cbn [m_queued m_done m_started m_store_ids m_committed m_prev_store]; try assumption.
     + reflexivity.
@@ -685,7 +693,7 @@ Theorem rel_step g m seen tr l a g' :
 Proof.
   intros Hm Hri Hsi Hu Hr Hg Hkey Hfresh.
   pose proof (minv_gstep _ _ _ _ _ _ Hm Hg) as Hm'.
-  destruct l as [j|w0| |cid]; [| | |cbn [gstep] in Hg; discriminate].
+  destruct l as [j|w0| |cid|wa]; [| | |cbn [gstep] in Hg; discriminate|].
   - (* ---------------- a call ---------------- *)
     cbn [gstep] in Hg. set (wj := loc_of c (key_of (j_op j))) in *.
     destruct (wj <? 0) eqn:En.
@@ -768,6 +776,12 @@ Proof.
     cbn [gstep] in Hg. inversion Hg; subst g' a; clear Hg. cbn [seen_after].
     assert (Hsj : same_jobs g (fun w => wstop (g w))) by (intros w; unfold wstop; cbn; repeat split).
     destruct (step_neutral g m seen tr GStop AStopped _ Hm Hm' Hr Hsj (fun _ => eq_refl) (fun _ => eq_refl)) as [Hc Hr']. cbn [m_queued m_done m_committed] in Hc.
+    eexists. split; [|exact Hr']. cbn [item_holds m_queued m_done m_committed]. rewrite Hc. reflexivity.
+  - (* ---------------- a caller gives up ---------------- *)
+    destruct (gstep_abandon _ _ _ _ _ _ Hg) as (s' & Ha & -> & ->). cbn [seen_after].
+    destruct (wabandon_spec _ _ Ha) as (E1 & E2 & E3 & E4).
+    assert (Hsj : same_jobs g (updm g wa s')) by (apply same_jobs_updm; [exact E3 | exact E2 | exact E4 | rewrite E1; reflexivity]).
+    destruct (step_neutral g m seen tr (GAbandon wa) (ARefused ECtx) _ Hm Hm' Hr Hsj (fun _ => eq_refl) (fun _ => eq_refl)) as [Hc Hr']. cbn [m_queued m_done m_committed] in Hc.
     eexists. split; [|exact Hr']. cbn [item_holds m_queued m_done m_committed]. rewrite Hc. reflexivity.
 Qed.
 End Step.
